@@ -1,5 +1,5 @@
 """Sidecar contracts.  These files hold clauses only - never a statement of the code under verification."""
-from . import decls, helpers, models, abstract, utils  # noqa: F401
+from . import decls, helpers, models, abstract, utils, multitask  # noqa: F401
 
 # ---- cross-cutting tags -------------------------------------------------------------------------------------------------------
 # C06 (no internal error part-way): every function on the optimize() path is verified free of implicit exceptions (index,
